@@ -72,8 +72,19 @@ theorem fifo_wakeOne (q : Quirks) (s : State) (k : Key) :
     have hsub : rest.Sublist s.wakeQ := by rw [hw]; exact List.sublist_cons_self w rest
     simp only []
     split
-    · exact (FifoStep.of_sublist (lineOf_sublist (t := { s with wakeQ := rest }) hsub (List.Sublist.refl _) k)).trans
-        (.of_eq (lineOf_notify w.key k _))
+    · split
+      · exact (FifoStep.of_sublist (lineOf_sublist (t := { s with wakeQ := rest }) hsub (List.Sublist.refl _) k)).trans
+          (.of_eq (lineOf_notify w.key k _))
+      · exact .of_sublist (lineOf_sublist (t := { s with wakeQ := rest }) hsub (List.Sublist.refl _) k)
+    split
+    · have hd : (lineOf { (setBlocked { s with wakeQ := rest } w.conn none) with
+          registry := (setBlocked { s with wakeQ := rest } w.conn none).registry.filter fun x => x.2.conn != w.conn } k).Sublist (lineOf s k) := by
+        apply lineOf_sublist
+        · simpa using hsub
+        · simp only [setBlocked_registry]; exact List.filter_sublist
+      split
+      · exact (FifoStep.of_sublist hd).trans (.of_eq (lineOf_notify w.key k _))
+      · exact .of_sublist hd
     split
     · exact .of_sublist (lineOf_sublist (t := { s with wakeQ := rest }) hsub (List.Sublist.refl _) k)
     · next e st' hp =>
@@ -272,7 +283,13 @@ theorem wakeOne_serves_head (q : Quirks) (s : State) (c : Conn) (k : Key) (v : E
   · next w rest hw =>
     simp only [] at h
     split at h
-    · rw [notify_out] at h; exact absurd h (hne _ _)
+    · split at h
+      · rw [notify_out] at h; exact absurd h (hne _ _)
+      · exact absurd h (hne _ _)
+    split at h
+    · split at h
+      · rw [notify_out] at h; simp only [setBlocked_out] at h; exact absurd h (hne _ _)
+      · simp only [setBlocked_out] at h; exact absurd h (hne _ _)
     split at h
     · exact absurd h (hne _ _)
     · next e st' hp =>
